@@ -190,6 +190,14 @@ type Raft struct {
 	// Notifies snapshot loop that a snapshot should be taken.
 	snapshotCond *sync.Cond
 
+	// Notifies goroutines waiting to use the state machine that it is available again.
+	stateMachineCond *sync.Cond
+
+	// Indicates that a replicated operation is being applied to the state machine, or that a
+	// snapshot of it is being taken or restored, while the lock is released. These must not
+	// overlap: the last applied index has to describe the content of the state machine.
+	stateMachineBusy bool
+
 	// The current state of this raft node: leader, followers, or shutdown.
 	state State
 
@@ -305,6 +313,7 @@ func NewRaft(
 	raft.readOnlyCond = sync.NewCond(&raft.mu)
 	raft.electionCond = sync.NewCond(&raft.mu)
 	raft.snapshotCond = sync.NewCond(&raft.mu)
+	raft.stateMachineCond = sync.NewCond(&raft.mu)
 
 	if err := raft.restore(); err != nil {
 		return nil, err
@@ -538,6 +547,7 @@ func (r *Raft) Stop() {
 	r.readOnlyCond.Broadcast()
 	r.electionCond.Broadcast()
 	r.snapshotCond.Broadcast()
+	r.stateMachineCond.Broadcast()
 
 	r.mu.Unlock()
 	r.wg.Wait()
@@ -1521,6 +1531,12 @@ func (r *Raft) InstallSnapshot(
 		r.logger.Fatalf("failed to get snapshot file: error = %v", err)
 	}
 
+	// An operation that is being applied right now must not land on top of the restored state.
+	if !r.acquireStateMachine() {
+		return nil
+	}
+	defer r.releaseStateMachine()
+
 	// Restore the state machine with the snapshot.
 	// This could take a while so it's probably best that the lock is released.
 	r.mu.Unlock()
@@ -1585,6 +1601,13 @@ func (r *Raft) snapshotLoop() {
 // only be taken if there is new state since the previous snapshot and there
 // is not a pending configuration change.
 func (r *Raft) takeSnapshot() {
+	// The snapshot must contain exactly the operations up to the last applied index it is
+	// labelled with: no operation may be applied while it is being taken.
+	if !r.acquireStateMachine() {
+		return
+	}
+	defer r.releaseStateMachine()
+
 	// There is nothing new to snapshot.
 	if r.lastApplied <= r.lastIncludedIndex {
 		return
@@ -1837,6 +1860,16 @@ func (r *Raft) applyLoop() {
 					r.configurationResponseCh = nil
 				}
 			case OperationEntry:
+				// Do not apply while a snapshot is being taken or restored. The last applied
+				// index may have changed while waiting for that to finish.
+				if !r.acquireStateMachine() {
+					continue
+				}
+				if r.lastApplied+1 != entry.Index {
+					r.releaseStateMachine()
+					continue
+				}
+
 				responseCh := r.operationManager.pendingReplicated[entry.Index]
 				delete(r.operationManager.pendingReplicated, entry.Index)
 
@@ -1861,6 +1894,9 @@ func (r *Raft) applyLoop() {
 					operation.OperationType.String(),
 				)
 				r.mu.Lock()
+
+				// The lock is held until the last applied index has been incremented below.
+				r.releaseStateMachine()
 
 				// It's possible a snapshot was installed while the lock was released.
 				// It's not safe to increment the last applied index if it has changed.
@@ -2035,6 +2071,27 @@ func (r *Raft) resetSnapshotFiles() {
 		}
 		r.snapshot = nil
 	}
+}
+
+// acquireStateMachine waits until no other goroutine is applying a replicated operation to the
+// state machine, taking a snapshot of it or restoring it, and then reserves it for the caller.
+// The lock is released while waiting. Returns false, without reserving the state machine, if the
+// node was shut down in the meantime.
+func (r *Raft) acquireStateMachine() bool {
+	for r.stateMachineBusy && r.state != Shutdown {
+		r.stateMachineCond.Wait()
+	}
+	if r.state == Shutdown {
+		return false
+	}
+	r.stateMachineBusy = true
+	return true
+}
+
+// releaseStateMachine makes the state machine available to other goroutines again.
+func (r *Raft) releaseStateMachine() {
+	r.stateMachineBusy = false
+	r.stateMachineCond.Broadcast()
 }
 
 // hasQuorum returns true if the provided count makes constitutes
